@@ -315,7 +315,7 @@ package mhprimary
 //@   assert at before call mhprimary.findLastPrimary#0: @C09-size-checked-first gexisting && header.MaxFileSize == maxFileSize
 //@   assert at before call os.OpenFile#0: @C09-file-opened-only-after-config-check (gexisting ==> header.MaxFileSize == maxFileSize) && $a0 == fname(path, lastPrimaryNum)
 //@   ensures @opened err == nil ==> mp != nil && inv(mp) && mp.gc == nil && !mp.closed
-//@   ensures @C02-cursors-agree-at-end-of-last-file err == nil ==> mp.length == gend && mp.recPos == mp.length && mp.recFileNum == mp.fileNum && mp.file.$open && len(mp.nextPool.blocks) == 0 && len(mp.curPool.blocks) == 0
+//@   internal ensures @C02-cursors-agree-at-end-of-last-file err == nil ==> mp.length == gend && mp.recPos == mp.length && mp.recFileNum == mp.fileNum && mp.file.$open && len(mp.nextPool.blocks) == 0 && len(mp.curPool.blocks) == 0
 //@   ensures @failed err != nil ==> mp == nil
 
 //@ func upgradePrimary(ctx context.Context, filePath string, headerPath string, maxFileSize uint32, freeList *freelist.FreeList) (last uint32, err error)
